@@ -332,6 +332,13 @@ class Ctx:
                 dispprog.regenerate()
             except Exception as e:  # the dispatch sites are no longer in a form the translator reads
                 self.broken_obligation(f'translator (dispatch sites): {type(e).__name__}: {e}')
+        if 'AeicModel.GeoSrc' in deps:
+            try:
+                from . import gtprog
+
+                gtprog.regenerate()
+            except Exception as e:  # the index arithmetic of GroundTrack is no longer in the form the parameters describe
+                self.broken_obligation(f'translator (ground track): {type(e).__name__}: {e}')
         if 'AeicModel.FlightLookup' in deps:
             try:
                 from . import fidprog
